@@ -100,9 +100,34 @@ def main(tier, seed):
             chk.violation('field-access:shadowing', 'probe', 'go-to-definition, %s: %s' % (failing[0][0], failing[0][2]), {'probe': failing[0][0]}, confirmed=True)
         else:
             chk.validated += len(probes)
+        # frame condition on InferCtx::resolver: a method that swaps in the resolver of another module puts the caller's back on every path
+        from . import resframe
+        methods = resframe.swapping_methods()
+        if not methods:
+            chk.inconclusive.append('resolver frame kernel: no InferCtx method that swaps the resolver was found in the MIR (the scan is out of date)')
+        fviol = []
+        for m in methods:
+            res, complete = explore.explore(resframe.factory, (m,), jobs=1)
+            chk.add_run('InferCtx::%s under-constrained: self.resolver on return is the value on entry (every path)' % m.rsplit('::', 1)[1], res, complete, {'callees': 'havoc (closures real)'},
+                        nontrivial_classes=lambda c: c == 'swapped-and-restored')
+            fviol += res.violations
+        probes = resframe.native_probes(oracle)
+        failing = [p for p in probes if not p[1]]
+        if fviol:
+            why = '; '.join(sorted({w for v in fviol for w in v['why']}))[:700]
+            if failing:
+                chk.violation('resolver-frame', 'bounded', '%s; public API: %s: %s' % (why, failing[0][0], failing[0][2]), {'probe': failing[0][0], 'method': fviol[0]['cex']}, confirmed=True)
+            else:
+                chk.inconclusive.append('resolver frame kernel: %s -- but go-to-definition on the %d probes lands where it should' % (why, len(probes)))
+        elif failing:
+            chk.violation('resolver-frame', 'probe', 'go-to-definition, %s: %s' % (failing[0][0], failing[0][2]), {'probe': failing[0][0]}, confirmed=True)
+        else:
+            chk.validated += len(probes)
     finally:
         oracle.close(); scopes.W.cleanup()
     chk.assumptions += [
+        'resolver frame kernel: every InferCtx method whose MIR writes the resolver field (found by scanning the MIR of the current tree) is executed with every callee havoc\'d (its closures real, a recursive call havoc\'d); '
+        'on every returning path the resolver field must hold the value it held on entry. Replay: go-to-definition on `m.g()` after 9 constructs that make inference visit another module which binds the qualifier m to a different module',
         'field-access kernel: InferCtx::infer_function (real MIR) on fn(q [: Rec | : Int]) { q.l } built as arena data; the solver chooses the annotation, whether Rec has the field l, whether an import qualifier q exists and whether that module exports l; '
         'resolver / Adt / Field accessors are stubs answering from that configuration. Rule asserted (the one the repository\'s tests encode): record access first - then no module_resolution entry for the base, which go-to-definition consults before the scope resolver -, module access as the fallback',
         'qualified type names: def::semantics::classify_type_name under-constrained: an answer taken from the current module\'s own type scope requires that a step of the qualified lookup returned None on that path; probed through goto_definition on `shapes.Wobble` next to a local `type Wobble`',
